@@ -43,11 +43,11 @@ class Ent:
     def rows(self):             # two levels: a list of collections
         return [list(self.tags), tuple(reversed(self.tags)), [self.a]]
 
-    def kids_now(self):         # a NEW list at every call (computed on demand)
-        return list(self.kids)
+    def kids_now(self):         # a NEW list at every call (computed on demand, by a comprehension)
+        return [k_ for k_ in self.kids]
 
     def tags_now(self):
-        return list(self.tags)
+        return [t_ for t_ in self.tags]
 
     def heavy(self) -> bool:    # user code that itself calls a @predicate function (concretely: it is not in a block)
         return p_k_ge(self, 2)
